@@ -8,7 +8,11 @@ import (
 )
 
 func (g *Gen) parse(via, s string) Ev {
-	return g.emit(Ev{"op": "Parse", "via": via, "s": ints([]byte(s))})
+	e := Ev{"op": "Parse", "via": via, "s": ints([]byte(s))}
+	if (via == "UnmarshalText" || via == "Sscan") && g.r.Intn(4) != 0 {
+		e.setDec("prev", mk(true, big.NewInt(777), -3)) // the receiver before the call: an error must leave it alone
+	}
+	return g.emit(e)
 }
 
 func (g *Gen) parseAllVias(s string, valid bool) {
